@@ -33,7 +33,10 @@ def stepLine (st : DState) (line : String) : DState × String :=
     | some a, some b, some c => ({ st with sigs := { entries := (a, b, c) :: st.sigs.entries } }, "-")
     | _, _, _ => (st, "bad-op")
   | ["mon.c08.utf8"] => (st, "pass")      -- what C08 demands; the implementation fails it (known finding F15)
-  | ["genesis.roundtrip"] => (st, "ok")     -- identity on the modelled state: Properties/C08
+  | ["genesis.roundtrip"] =>
+    -- identity on the modelled state (Properties/C08), up to the representation of "no tokens": a class
+    -- re-created by the import has no total-supply entry, where burning the last token leaves an entry `0`
+    ({ st with pnft := { st.pnft with st := { st.pnft.st with supply := st.pnft.st.supply.filter (·.2 ≠ 0) } } }, "ok")
   | "sb.legacy" :: "aol" :: rest =>       -- exact legacy sign bytes of an AOL message (Properties/C14)
     match aolParseMsg rest with
     | some m => (st, "ok " ++ (SignBytes.aolRender m).toHex)
@@ -52,7 +55,7 @@ def stepLine (st : DState) (line : String) : DState × String :=
       | some (d, ans) => ({ st with aol := d }, ans)
       | none => (st, "bad-op")
     else if tok = "ks.load" then (st, (ksStep toks).getD "bad-op")
-    else if tok = "mon.c17" || tok = "mon.c17.f14" || tok = "mon.c20.kslock" || tok = "mon.c20.snapshots" ||
+    else if tok = "mon.c17" || tok = "mon.c17.f14" || tok.startsWith "mon.c20." ||
         tok = "mon.c09.block" || tok = "mon.c09.genesis-spellings" || tok = "mon.c10.block" || tok = "mon.c19.upgrade" then
       -- runtime monitors: the model's verdict is what the property demands (Properties/C09, C10, C19, C20)
       (st, "pass")
